@@ -295,6 +295,21 @@ func c11SparePropsKind(r *rand.Rand, label string, kind int) gts.Props {
 	case 2:
 		items = append(items, kv{"pseudo", []string{""}})
 	}
+	// one or two further qualifiers from the INSDC vocabulary with a value of
+	// the vocabulary: an operation that treats some qualifier specially
+	// (re-phasing, re-orienting, re-typing it) meets it here.
+	for n := r.Intn(3); n > 0; n-- {
+		name := c11Vocabulary[r.Intn(len(c11Vocabulary))]
+		dup := false
+		for _, it := range items {
+			if it.k == name {
+				dup = true
+			}
+		}
+		if !dup {
+			items = append(items, kv{name, []string{c11VocabValues[r.Intn(len(c11VocabValues))]}})
+		}
+	}
 	out := make(gts.Props, len(items), len(items)+2)
 	for i, it := range items {
 		p := make([]string, 1+len(it.vv), 3+len(it.vv))
@@ -1486,3 +1501,9 @@ func (m c11) Run(c *fw.Ctx) {
 
 // c11ArgList reports a changed argument slice from inside an operation.
 var c11ArgList string
+
+var c11Vocabulary = []string{"direction", "allele", "anticodon", "bound_moiety", "cell_line", "country", "EC_number", "estimated_length", "exception", "experiment",
+	"frequency", "function", "inference", "map", "mobile_element_type", "number", "operon", "PCR_conditions", "phenotype", "plasmid", "regulatory_class", "replace",
+	"rpt_family", "rpt_type", "rpt_unit_range", "satellite", "strain", "transl_except", "transl_table", "standard_name", "old_locus_tag", "ncRNA_class", "mod_base", "tag_peptide"}
+
+var c11VocabValues = []string{"left", "right", "LEFT", "RIGHT", "1", "2", "11", "3..9", "(pos:5..7,aa:Met)", "unknown", "other", "tandem", "a:b", "acgt", ""}
